@@ -42,3 +42,8 @@ package codec
 //@   trusted
 //@   modifies nothing
 //@   allocates
+// loading a private key reads a file and parses it: nothing the callers' proofs see changes (trusted)
+//@ func NewRsaDecrypter
+//@   trusted
+//@   modifies nothing
+//@   allocates
